@@ -96,6 +96,23 @@ func genC03(repo string) (string, error) {
 		return "", err
 	}
 
+	// the transaction wrapper under every guarded write: If / Then pass through, Commit commits ONCE
+	ek, err := goast.Load(repo, "server/kv/etcd_kv.go")
+	if err != nil {
+		return "", err
+	}
+	for _, fn := range []string{"If", "Then"} {
+		src, err := funcBodySrc(ek, "SlowLogTxn", fn)
+		if err != nil {
+			return "", err
+		}
+		fmt.Fprintf(&o.sb, "Definition src_SlowLogTxn_%s : string := %s.\n", fn, goast.Q(src))
+	}
+	if err := o.skeleton(ek, "SlowLogTxn", "Commit", "skel_SlowLogTxn_Commit",
+		goast.SkelOpt{Calls: set("Commit", "cancel", "If", "Then", "Txn"), Assigns: set("resp", "err"), Conds: true, Branches: true}); err != nil {
+		return "", err
+	}
+
 	mb, err := goast.Load(repo, "server/member/member.go")
 	if err != nil {
 		return "", err
